@@ -436,6 +436,12 @@ class Project:
           st.target, ast.Name) and st.value is not None:
         mod.assigns[st.target.id] = st.value
     elif isinstance(scope, ClassInfo):
+      if isinstance(st, ast.Assign) and isinstance(
+          st.value, ast.Name) and st.value.id in scope.methods:
+        # `visit_X = _visit_common` in a class body: one method, two names
+        for t in st.targets:
+          if isinstance(t, ast.Name):
+            scope.methods[t.id] = scope.methods[st.value.id]
       if isinstance(st, ast.AnnAssign) and isinstance(st.target, ast.Name):
         scope.annotations[st.target.id] = st.annotation
         if st.value is not None:
